@@ -526,6 +526,30 @@ def run_R01_5(model, col, vm):
         want = a if rank[a] >= rank[b] else b
         col.check(got == want, "R01.5", f"{TYPES}::_GetCommonScalarType({a}, {b})", f"-> {got}",
                   f"common type of {a} and {b} is {got}; the promotion order float > int > uint requires {want}", TYPES, f)
+    # the scalar classes keep their identity when they are adapted to IR types (signedness decides the conversion and the wasm opcode)
+    clt = model.func(LOWER, "_CreateLinearIRType")
+    ity = model.cls("nsl/LinearIR.py", "IntegerType").own_method("__init__")
+    dflt = {a.arg: d for a, d in zip(ity.args.kwonlyargs, ity.args.kw_defaults) if d is not None}
+    dflt.update({a.arg: d for a, d in zip(reversed(ity.args.args), reversed(ity.args.defaults))})
+    uns_default = dflt.get("unsigned").value if isinstance(dflt.get("unsigned"), ast.Constant) else None
+    want_adapt = {"Integer": ("IntegerType", False), "UnsignedInteger": ("IntegerType", True), "Float": ("FloatType", None)}
+    seen_adapt = {}
+    for mc in [n for n in ast.walk(clt) if isinstance(n, ast.match_case)]:
+        pat = mc.pattern
+        cn = last_attr(ast.Call(func=pat.cls, args=[], keywords=[])) if isinstance(pat, ast.MatchClass) else None
+        if cn in want_adapt:
+            rets = [r.value for s_ in mc.body for r in ast.walk(s_) if isinstance(r, ast.Return) and isinstance(r.value, ast.Call)]
+            if rets:
+                r0 = rets[0]
+                kw_u = next((k.value.value for k in r0.keywords if k.arg == "unsigned" and isinstance(k.value, ast.Constant)), None)
+                if kw_u is None and r0.args and isinstance(r0.args[0], ast.Constant) and last_attr(r0) == "IntegerType":
+                    kw_u = r0.args[0].value
+                seen_adapt[cn] = (last_attr(r0), (kw_u if kw_u is not None else uns_default) if last_attr(r0) == "IntegerType" else None)
+    for cn, want in want_adapt.items():
+        got = seen_adapt.get(cn)
+        col.check(got == want, "R01.5", f"{LOWER}::_CreateLinearIRType {cn}", f"types.{cn} -> LinearIR.{want[0]}" + (f"(unsigned={want[1]})" if want[1] is not None else ""),
+                  f"types.{cn} is adapted to {got}; expected LinearIR.{want[0]}" + (f" with unsigned={want[1]}" if want[1] is not None else "") +
+                  ": conversions to this type (and, in wasm, the signedness of division and comparisons) follow the wrong scalar class", LOWER, clt)
     vb = model.cls(CASTS, "AddImplicitCastVisitor").own_method("v_BinaryExpression")
     for side, idx, setter in (("GetLeft", 0, "SetLeft"), ("GetRight", 1, "SetRight")):
         sets = [c for c in ast.walk(vb) if isinstance(c, ast.Call) and last_attr(c) == setter]
